@@ -998,8 +998,509 @@ def correspondence(rng, tier):
     return [eq_cases(rng, tier, v), in_cases(rng, tier, v), derived_cases(rng, tier, dv), variant_cases(v)]
 
 
+# --------------------------------------------------------------------- probes (property oracles, no model)
+_RP_HEAD = ("import sys, numpy as np, warnings\nwarnings.simplefilter('ignore')\nsys.path.insert(0, %r)\n"
+            "import odl\nfrom harness import c20 as H\nctx = H.Ctx()\n" % C.VERIF)
+
+
+def intv_ndims(d, acc=None):
+    """ndims of every IntervalProd inside a descriptor (to attribute failures to the ndim finding)"""
+    acc = set() if acc is None else acc
+    if not isinstance(d, tuple) or not d:
+        return acc
+    if d[0] == 'intv':
+        acc.add(len(d[1]))
+    elif d[0] == 'P':
+        acc.add(len(d[1][0]))
+    elif d[0] == 'discr':
+        acc.add(len(d[1][0]))
+    elif d[0] in ('cart', 'union', 'inter', 'prod'):
+        for x in d[1]:
+            intv_ndims(x, acc)
+    return acc
+
+
+def has_cross_array_w(a, b):
+    ra, rb = repr(a), repr(b)
+    return ("'array', 'KNpy'" in ra + rb) and ("'array', 'KPs'" in ra + rb)
+
+
+def cls_of(t):
+    return {'W': 'weighting', 'P': 'partition'}.get(t[0], t[0])
+
+
+def law_key(law, things):
+    nd = set()
+    for t in things:
+        intv_ndims(t, nd)
+    if len(nd) > 1:
+        return 'intervalprod-eq-ndim-broadcast'
+    if law == 'hash' and has_cross_array_w(things[0], things[-1]):
+        return 'arrayweighting-hash-crossclass'
+    return 'eq-%s-%s' % (law, cls_of(things[0]))
+
+
+def probe_laws(rng, tier, out):
+    n = 250 if tier == 'quick' else 1500
+    ctx = Ctx()
+    for _ in range(n):
+        a = gen_thing(rng)
+        b = a if rng.random() < 0.25 else mutate_thing(rng, a)
+        c = b if rng.random() < 0.4 else mutate_thing(rng, b)
+        if rng.random() < 0.3:
+            c = a
+        try:
+            oa, ob, oc = build_thing(a, ctx), build_thing(b, ctx, 1), build_thing(c, ctx)
+        except Exception:
+            continue
+        head = _RP_HEAD + "a, b, c = %r, %r, %r\noa, ob, oc = H.build_thing(a, ctx), H.build_thing(b, ctx, 1), H.build_thing(c, ctx)\n" % (a, b, c)
+        # reflexive: the object itself and an independent rebuild
+        r1, r2 = obs_eq(oa, oa), obs_eq(oa, build_thing(a, ctx, 2))
+        out.append(C.Probe(r1 == 'TT' and r2 == 'TT', law_key('refl', [a]),
+                           'a == a and a == rebuild(a) for %s' % cls_of(a),
+                           head + "ok = bool(oa == oa) and bool(oa == H.build_thing(a, ctx, 2))\n"))
+        ab, ba = obs_eq(oa, ob), obs_eq(ob, oa)
+        out.append(C.Probe(ab == ba and ab != 'EE', law_key('sym', [a, b]),
+                           'a == b and b == a agree and do not raise (%s)' % cls_of(a),
+                           head + "observed = (H.obs_eq(oa, ob), H.obs_eq(ob, oa)); ok = observed[0] == observed[1] != 'EE'\n"))
+        if ab == 'TT':
+            ha, hb = obs_hash(oa), obs_hash(ob)
+            out.append(C.Probe(ha == hb, law_key('hash', [a, b]),
+                               'a == b implies hash(a) == hash(b) (%s)' % cls_of(a),
+                               head + "observed = (H.obs_hash(oa), H.obs_hash(ob)); ok = (not (oa == ob)) or observed[0] == observed[1]\n"))
+        bc = obs_eq(ob, oc)
+        if ab == 'TT' and bc == 'TT':
+            ac = obs_eq(oa, oc)
+            out.append(C.Probe(ac == 'TT', law_key('trans', [a, b, c]),
+                               'a == b and b == c imply a == c (%s)' % cls_of(a),
+                               head + "observed = H.obs_eq(oa, oc); ok = not (oa == ob and ob == oc) or observed == 'TT'\n"))
+    # the recorded witnesses themselves
+    import odl
+    I1, I2, I3 = odl.IntervalProd(0, 1), odl.IntervalProd([0, 0], [1, 1]), odl.IntervalProd([0, 0, 0], [1, 1, 1])
+    out.append(C.Probe(not (I1 == I3) or hash(I1) == hash(I3), 'intervalprod-eq-ndim-broadcast',
+                       'IntervalProd(0,1) == IntervalProd([0,0,0],[1,1,1]) must not hold with different hashes',
+                       "import odl\na, b = odl.IntervalProd(0, 1), odl.IntervalProd([0, 0, 0], [1, 1, 1])\n"
+                       "observed = (a == b, hash(a) == hash(b)); ok = (not observed[0]) or observed[1]\n"))
+    out.append(C.Probe(obs_eq(I2, I3) != 'EE', 'intervalprod-eq-ndim-broadcast',
+                       'IntervalProd ndim 2 == ndim 3 must not raise',
+                       "import odl\ntry:\n    observed = odl.IntervalProd([0, 0], [1, 1]) == odl.IntervalProd([0, 0, 0], [1, 1, 1]); ok = True\n"
+                       "except ValueError as e:\n    observed = repr(e); ok = False\n"))
+    from odl.space.npy_tensors import NumpyTensorSpaceArrayWeighting as NA
+    from odl.space.pspace import ProductSpaceArrayWeighting as PA
+    w = np.array([1.0, 2.0])
+    out.append(C.Probe(not (NA(w) == PA(w)) or hash(NA(w)) == hash(PA(w)), 'arrayweighting-hash-crossclass',
+                       'array weightings of the two class families on one array: equal, so hashes must agree',
+                       "import numpy as np\nfrom odl.space.npy_tensors import NumpyTensorSpaceArrayWeighting as NA\n"
+                       "from odl.space.pspace import ProductSpaceArrayWeighting as PA\nw = np.array([1.0, 2.0])\n"
+                       "observed = (NA(w) == PA(w), hash(NA(w)) == hash(PA(w))); ok = (not observed[0]) or observed[1]\n"))
+
+
+def probe_membership(rng, tier, out):
+    n = 60 if tier == 'quick' else 400
+    ctx = Ctx()
+    for _ in range(n):
+        S = gen_space(rng, 2)
+        X = S if rng.random() < 0.4 else mutate(rng, S)
+        try:
+            oS, oX = build(S, ctx), build(X, ctx, 1)
+            x = oX.element()
+        except Exception:
+            continue
+        try:
+            ok = (x in oS) == bool(x.space == oS) == bool(oS == x.space)
+        except Exception:
+            ok = False
+        nd = intv_ndims(S) | intv_ndims(X)
+        key = 'intervalprod-eq-ndim-broadcast' if len(nd) > 1 else 'membership-%s' % S[0]
+        out.append(C.Probe(ok, key, 'x in S exactly when x.space == S (%s)' % S[0],
+                           _RP_HEAD + "S, X = %r, %r\noS, oX = H.build(S, ctx), H.build(X, ctx, 1)\nx = oX.element()\n"
+                           "ok = (x in oS) == bool(x.space == oS) == bool(oS == x.space)\n" % (S, X)))
+
+
+def _flat(el):
+    import odl
+    if isinstance(el, odl.space.pspace.ProductSpaceElement):
+        parts = [_flat(p) for p in el]
+        return np.concatenate(parts) if parts else np.zeros(0)
+    return np.asarray(el).ravel()
+
+
+def _rand_data(rng, shape, dt):
+    n = int(np.prod(shape)) if shape else 1
+    if dt == 'bool':
+        vals = [rng.choice([0, 1]) for _ in range(n)]
+    elif dt.startswith('uint'):
+        vals = [rng.randint(0, 5) for _ in range(n)]
+    elif dt.startswith('int'):
+        vals = [rng.randint(-5, 5) for _ in range(n)]
+    else:
+        vals = [rng.choice([0.0, 1.0, -2.0, 0.5, 3.0, -0.25]) for _ in range(n)]
+    return np.array(vals, dtype=float).reshape(shape)
+
+
+def leaf_tsp(d):
+    return d[1] if d[0] == 'tensor' else d[2]
+
+
+def _input_for(rng, d, good=True):
+    """nested Python input (lists / arrays) for space descriptor d; good=False: wrong shape somewhere"""
+    if d[0] == 'prod':
+        n = len(d[1])
+        if not good and (n == 0 or rng.random() < 0.4):
+            return [_input_for(rng, x) for x in d[1]] + [[1.0]]
+        bad = rng.randrange(n) if (not good and n) else -1
+        return [_input_for(rng, x, good=(i != bad)) for i, x in enumerate(d[1])]
+    shape, dt, _ = leaf_tsp(d)
+    if not good:
+        shape = tuple(shape) + (2,) if rng.random() < 0.5 or not shape else (shape[0] + 1,) + tuple(shape[1:])
+    arr = _rand_data(rng, tuple(shape), dt)
+    if not good and arr.shape == tuple(leaf_tsp(d)[0]):
+        arr = np.zeros(tuple(leaf_tsp(d)[0]) + (2,))
+    k = rng.random()
+    if k < 0.4 and arr.size > 0:
+        return arr.tolist()      # (an empty nested list has lost its shape)
+    if k < 0.7:
+        return arr
+    return arr.astype('float32') if dt not in ('bool',) else arr
+
+
+def _expected_flat(inp, d):
+    if d[0] == 'prod':
+        parts = [_expected_flat(i, x) for i, x in zip(inp, d[1])]
+        return np.concatenate(parts) if parts else np.zeros(0)
+    dt = leaf_tsp(d)[1]
+    return np.asarray(inp).astype(dt).ravel()
+
+
+def numeric_only(d):
+    if d[0] == 'prod':
+        return all(numeric_only(x) for x in d[1])
+    return leaf_tsp(d)[1] not in ('U', 'O')
+
+
+def probe_element(rng, tier, out):
+    import odl
+    n = 120 if tier == 'quick' else 700
+    ctx = Ctx()
+    for _ in range(n):
+        S = gen_space(rng, 2)
+        if not numeric_only(S):
+            continue
+        try:
+            oS = build(S, ctx)
+        except Exception:
+            continue
+        kind = S[0]
+        head = _RP_HEAD + "S = %r\noS = H.build(S, ctx)\n" % (S,)
+        # (1) x in S  ->  element(x) is x
+        try:
+            x = oS.element(_input_for(rng, S))
+            r = oS.element(x)
+            oS2 = build(S, ctx, 1)
+            x2 = oS2.element(_input_for(rng, S))
+            r2 = oS.element(x2)
+        except Exception:
+            x, r, x2, r2 = 0, 1, 0, 1
+        out.append(C.Probe(r is x, 'element-identity-%s' % kind, 'S.element(x) is x for x in S (%s)' % kind,
+                           head + "import random\nx = oS.element(H._input_for(random.Random(1), S))\nok = oS.element(x) is x\n"))
+        # an element of an equal but distinct space object is also returned as is
+        out.append(C.Probe(r2 is x2, 'element-identity-%s' % kind,
+                           'S.element(x) is x for x in an equal space (%s)' % kind,
+                           head + "import random\nx = H.build(S, ctx, 1).element(H._input_for(random.Random(1), S))\nok = oS.element(x) is x\n"))
+        # (2) otherwise: values = input converted to the dtype
+        inp = _input_for(rng, S)
+        try:
+            el = oS.element(inp)
+            ok = (el in oS) and np.array_equal(_flat(el), _expected_flat(inp, S))
+        except Exception as e:
+            ok = False
+        out.append(C.Probe(ok, 'element-values-%s' % kind,
+                           'S.element(inp) is in S and holds inp converted to the dtype (%s)' % kind,
+                           head + "inp = %s\nel = oS.element(inp)\nok = (el in oS) and np.array_equal(H._flat(el), H._expected_flat(inp, S))\n"
+                           % _py_repr(inp)))
+        # an element of a differently weighted / typed space is converted, not returned
+        X = mutate(rng, S)
+        if X[0] == S[0] and numeric_only(X):
+            try:
+                oX = build(X, ctx)
+                same_shape = _shapes(X) == _shapes(S)
+                if same_shape and not (oX == oS):
+                    xo = oX.element(_input_for(rng, X))
+                    el = oS.element(xo)
+                    ok = (el is not xo) and (el in oS) and np.array_equal(_flat(el), _expected_flat_el(xo, S))
+                    out.append(C.Probe(ok, 'element-cast-%s' % kind,
+                                       'an element of another space with the same shape is converted (%s)' % kind,
+                                       head + "X = %r\noX = H.build(X, ctx)\nimport random\nxo = oX.element(H._input_for(random.Random(1), X))\n"
+                                       "el = oS.element(xo)\nok = (el is not xo) and (el in oS) and np.array_equal(H._flat(el), H._expected_flat_el(xo, S))\n" % (X,)))
+            except Exception:
+                pass
+        # (3) incompatible shapes raise (ValueError)
+        bad = _input_for(rng, S, good=False)
+        try:
+            oS.element(bad)
+            ok = False
+        except ValueError:
+            ok = True
+        except Exception:
+            ok = False
+        out.append(C.Probe(ok, 'element-shape-error-%s' % kind, 'S.element(wrongly shaped input) raises ValueError (%s)' % kind,
+                           head + "bad = %s\ntry:\n    oS.element(bad); ok = False\nexcept ValueError:\n    ok = True\n" % _py_repr(bad)))
+
+
+def _shapes(d):
+    if d[0] == 'prod':
+        return tuple(_shapes(x) for x in d[1])
+    return tuple(leaf_tsp(d)[0])
+
+
+def _expected_flat_el(el, d):
+    import odl
+    if d[0] == 'prod':
+        parts = [_expected_flat_el(p, x) for p, x in zip(el, d[1])]
+        return np.concatenate(parts) if parts else np.zeros(0)
+    return np.asarray(el).astype(leaf_tsp(d)[1]).ravel()
+
+
+def _py_repr(x):
+    if isinstance(x, np.ndarray):
+        return 'np.array(%r, dtype=%r)' % (x.tolist(), x.dtype.name)
+    if isinstance(x, list):
+        return '[' + ', '.join(_py_repr(i) for i in x) + ']'
+    return repr(x)
+
+
+def w_same(w1, w2):
+    """weighting preserved: the same object or an equal descriptor"""
+    return w1 is w2 or (w1 == w2 and type(w1) is type(w2))
+
+
+def _check_derived_leafwise(src, res, dt, keyprefix, problems):
+    """shape/dtype/field/weighting of res are those of src with dtype dt (recursively)."""
+    import odl
+    if isinstance(src, odl.ProductSpace):
+        if not isinstance(res, odl.ProductSpace) or len(res) != len(src):
+            problems.append(keyprefix + '-structure')
+            return
+        if not w_same(src.weighting, res.weighting):
+            problems.append('pspace-astype-drops-weighting')
+        for s, r in zip(src.spaces, res.spaces):
+            _check_derived_leafwise(s, r, dt, keyprefix, problems)
+        return
+    if type(res) is not type(src) or res.shape != src.shape:
+        problems.append(keyprefix + '-shape')
+        return
+    want = np.dtype(dt(src) if callable(dt) else dt)
+    if res.dtype != want:
+        problems.append(keyprefix + '-dtype')
+    from odl.util import is_real_dtype, is_complex_floating_dtype, is_floating_dtype, is_numeric_dtype
+    f = res.field
+    okf = (isinstance(f, odl.RealNumbers) if is_real_dtype(want) else
+           isinstance(f, odl.ComplexNumbers) if is_complex_floating_dtype(want) else f is None)
+    if not okf:
+        problems.append(keyprefix + '-field')
+    if is_numeric_dtype(want) and is_numeric_dtype(src.dtype) and not w_same(src.weighting, res.weighting):
+        problems.append('tensorspace-astype-nonfloat-drops-weighting' if not is_floating_dtype(want)
+                        else keyprefix + '-weighting')
+    if isinstance(src, odl.DiscretizedSpace) and res.partition != src.partition:
+        problems.append(keyprefix + '-partition')
+
+
+def probe_derived(rng, tier, out):
+    import odl
+    from odl.util import is_numeric_dtype
+    n = 150 if tier == 'quick' else 900
+    ctx = Ctx()
+    for _ in range(n):
+        S = gen_prod(rng, 2) if rng.random() < 0.5 else gen_space(rng, 2)
+        try:
+            oS = build(S, ctx)
+        except Exception:
+            continue
+        head = _RP_HEAD + "S = %r\noS = H.build(S, ctx)\n" % (S,)
+        r = rng.random()
+        if r < 0.5:
+            dt = rng.choice(['float64', 'float32', 'complex128', 'complex64', 'int64', 'int32', 'uint8', 'float16'])
+            name, call, want = 'astype', "oS.astype(%r)" % dt, dt
+        elif r < 0.75:
+            name, call = 'real_space', "oS.real_space"
+            want = lambda s: s.real_dtype
+        else:
+            name, call = 'complex_space', "oS.complex_space"
+            want = lambda s: s.complex_dtype
+        problems = []
+        arrw_cast = False
+        try:
+            res = eval(call)
+            _check_derived_leafwise(oS, res, want, name, problems)
+        except Exception as e:
+            # raising is acceptable only where the target is undefined: non-numeric source for real/complex
+            # counterparts, no complex counterpart of an integer type, float64 weighting array not castable
+            leaves = _leaves(oS)
+            if name == 'astype':
+                arrw_cast = any(isinstance(l.weighting, odl.space.weighting.ArrayWeighting) and
+                                not np.can_cast(l.weighting.array.dtype, np.dtype(want)) for l in leaves)
+                undefined = arrw_cast
+            else:
+                undefined = any((not is_numeric_dtype(l.dtype)) or (name == 'complex_space' and l.complex_dtype is None)
+                                or (isinstance(l.weighting, odl.space.weighting.ArrayWeighting) and l.dtype != np.dtype('float64')
+                                    and l.dtype != np.dtype('complex128') and False) for l in leaves)
+                undefined = undefined or any(isinstance(l.weighting, odl.space.weighting.ArrayWeighting) for l in leaves)
+            if isinstance(oS, odl.ProductSpace) and _has_empty(oS):
+                problems.append('pspace-empty-astype-raises')
+            elif not undefined:
+                problems.append('%s-raises-%s' % (name, type(e).__name__))
+        for k in sorted(set(problems)) or [None]:
+            out.append(C.Probe(k is None, k or ('derived-%s-%s' % (name, S[0])),
+                               '%s of %s: shape, dtype, field and weighting carried over' % (name, S[0]),
+                               head + "probs = []\ntry:\n    res = %s\n    H._check_derived_leafwise(oS, res, %s, %r, probs)\n"
+                               "except Exception as e:\n    probs.append(repr(e))\nobserved = probs; ok = not probs\n"
+                               % (call, repr(want) if isinstance(want, str) else
+                                  ('(lambda s: s.real_dtype)' if name == 'real_space' else '(lambda s: s.complex_dtype)'), name)))
+
+
+def _leaves(s):
+    import odl
+    if isinstance(s, odl.ProductSpace):
+        return [l for x in s.spaces for l in _leaves(x)]
+    return [s]
+
+
+def _has_empty(s):
+    import odl
+    return isinstance(s, odl.ProductSpace) and (len(s) == 0 or any(_has_empty(x) for x in s.spaces))
+
+
+def probe_indexing(rng, tier, out):
+    import odl
+    n = 120 if tier == 'quick' else 700
+    ctx = Ctx()
+    for _ in range(n):
+        # ---- product-space indexing: int / slice / list select the components and keep the weighting
+        S = gen_prod(rng, 1)
+        try:
+            oS = build(S, ctx)
+        except Exception:
+            continue
+        m = len(S[1])
+        idx = gen_slice(rng, m) if rng.random() < 0.5 else [rng.randrange(-m, m) for _ in range(rng.choice([1, 2, 3]))] if m else slice(None)
+        head = _RP_HEAD + "S = %r\noS = H.build(S, ctx)\nidx = %r\n" % (S, idx)
+        try:
+            sub = oS[idx]
+            want = [oS.spaces[i] for i in (range(m)[idx] if isinstance(idx, slice) else idx)]
+            ok_sel = isinstance(sub, odl.ProductSpace) and len(sub) == len(want) and all(a is b for a, b in zip(sub.spaces, want))
+            ok_fld = sub.field == oS.field
+            w = oS.weighting
+            if isinstance(w, odl.space.weighting.ConstWeighting):
+                ok_w = (sub.weighting == w)
+            else:
+                ok_w = True        # array / custom weightings have no canonical restriction
+        except ValueError:
+            ok_sel = ok_fld = ok_w = (isinstance(idx, slice) and idx.step == 0)
+        except Exception:
+            ok_sel = ok_fld = ok_w = False
+        out.append(C.Probe(ok_sel and ok_fld, 'pspace-getitem-selection', 'pspace[idx] consists of the selected components, same field',
+                           head + "sub = oS[idx]\nwant = [oS.spaces[i] for i in (range(len(oS))[idx] if isinstance(idx, slice) else idx)]\n"
+                           "ok = len(sub) == len(want) and all(a is b for a, b in zip(sub.spaces, want)) and sub.field == oS.field\n"))
+        out.append(C.Probe(ok_w, 'pspace-getitem-drops-weighting', 'pspace[idx] keeps a constant product weighting (and exponent)',
+                           head + "sub = oS[idx]\nobserved = (oS.weighting, sub.weighting); ok = sub.weighting == oS.weighting\n"))
+    # ---- element indexing commutes with asarray: tensors
+    for _ in range(n):
+        t = gen_tsp(rng, shape=[rng.choice([1, 2, 3]) for _ in range(rng.choice([1, 2, 3]))])
+        if t[1] in ('U', 'O'):
+            continue
+        S = ('tensor', t) if rng.random() < 0.6 else None
+        if S is None:
+            p = gen_part(rng, len(t[0]))
+            S = ('discr', p, (tuple(len(g) for g in p[1]), t[1], t[2] if t[2][0] != 'array' else ('const', 'KNpy', 1.0, 2.0)))
+        try:
+            oS = build(S, ctx)
+        except Exception:
+            continue
+        shape = oS.shape
+        x = oS.element(_rand_data(rng, shape, leaf_tsp(S)[1]))
+        idx = tuple((rng.randrange(-k, k) if rng.random() < 0.4 else gen_slice(rng, k)) for k in shape[:rng.randint(1, len(shape))])
+        idx = tuple(i if not (isinstance(i, slice) and i.step == 0) else slice(None) for i in idx)
+        if len(idx) == 1 and rng.random() < 0.5:
+            idx = idx[0]
+        arr = np.asarray(x)[idx]
+        isarrw = leaf_tsp(S)[2][0] == 'array'
+        try:
+            sub = x[idx]
+            ok = np.array_equal(np.asarray(sub), arr)
+            if not np.isscalar(arr):
+                ok = ok and sub.shape == arr.shape and sub.dtype == arr.dtype
+                w = oS.weighting if S[0] == 'tensor' else oS.tspace.weighting
+                okw = w_same(sub.space.weighting, w) if leaf_tsp(S)[1] != 'bool' else True
+            else:
+                okw = True
+        except Exception:
+            ok, okw = False, True
+        key = 'tensor-getitem-array-weighting' if isarrw else 'tensor-getitem-%s' % S[0]
+        head = _RP_HEAD + "S = %r\noS = H.build(S, ctx)\nidx = %r\nx = oS.element(np.arange(oS.size, dtype=float).reshape(oS.shape) %% 2)\n" % (S, idx)
+        out.append(C.Probe(ok, key, 'x[idx] has the entries, shape and dtype of x.asarray()[idx] (%s)' % S[0],
+                           head + "sub = x[idx]; arr = np.asarray(x)[idx]\nok = np.array_equal(np.asarray(sub), arr)\n"))
+        out.append(C.Probe(okw, key + '-weighting', 'x[idx].space keeps the (non-array) weighting',
+                           head + "sub = x[idx]\nok = np.isscalar(sub) or sub.space.weighting == (oS.weighting if %r == 'tensor' else oS.tspace.weighting)\n" % S[0]))
+        # byaxis: shape of the selection, same dtype and (non-array) weighting
+        if S[0] == 'tensor':
+            nd = len(shape)
+            bi = rng.randrange(-nd, nd) if rng.random() < 0.4 else gen_slice(rng, nd) if rng.random() < 0.5 else [rng.randrange(-nd, nd) for _ in range(rng.choice([1, 2]))]
+            if isinstance(bi, slice) and bi.step == 0:
+                bi = slice(None)
+            want_shape = (shape[bi],) if isinstance(bi, int) else tuple(shape[bi]) if isinstance(bi, slice) else tuple(shape[i] for i in bi)
+            try:
+                sub = oS.byaxis[bi]
+                ok = sub.shape == want_shape and sub.dtype == oS.dtype and (isarrw or w_same(sub.weighting, oS.weighting))
+            except Exception:
+                ok = False
+            key = ('byaxis-array-weighting' if isarrw else 'byaxis-nonnumeric-dtype' if leaf_tsp(S)[1] == 'bool' else 'byaxis-tensor')
+            out.append(C.Probe(ok, key, 'space.byaxis[idx] has the selected axes, same dtype and weighting',
+                               _RP_HEAD + "S = %r\noS = H.build(S, ctx)\nsub = oS.byaxis[%r]\nok = sub.shape == %r and sub.dtype == oS.dtype\n" % (S, bi, want_shape)))
+    # ---- element indexing commutes with asarray: power spaces (possibly nested)
+    for _ in range(n):
+        base_n = rng.choice([1, 2, 3])
+        m1, m2 = rng.choice([1, 2, 3]), rng.choice([1, 2])
+        depth = rng.choice([1, 1, 2])
+        sp = odl.rn(base_n)
+        ps = odl.ProductSpace(sp, m1) if depth == 1 else odl.ProductSpace(odl.ProductSpace(sp, m1), m2)
+        shape = ps.shape
+        data = np.arange(int(np.prod(shape)), dtype=float).reshape(shape)
+        x = ps.element(data)
+        r = rng.random()
+        if r < 0.35:
+            idx = rng.randrange(-shape[0], shape[0]) if rng.random() < 0.5 else gen_slice(rng, shape[0])
+            if isinstance(idx, slice) and idx.step == 0:
+                idx = slice(None)
+            simple = True
+        else:
+            idx = tuple((rng.randrange(-k, k) if rng.random() < 0.5 else gen_slice(rng, k)) for k in shape[:rng.randint(2, len(shape))])
+            idx = tuple(i if not (isinstance(i, slice) and i.step == 0) else slice(None) for i in idx)
+            simple = all(isinstance(i, int) for i in idx)
+        arr = data[idx]
+        try:
+            sub = x[idx]
+            ok = np.array_equal(np.asarray(sub), arr) and np.shape(np.asarray(sub)) == np.shape(arr)
+        except Exception:
+            ok = False
+        key = 'pspace-element-getitem-%s' % ('empty-selection' if np.size(arr) == 0 else 'simple' if simple else 'tuple')
+        out.append(C.Probe(ok, key, 'x[idx].asarray() equals x.asarray()[idx] on a power space of shape %s' % (shape,),
+                           "import odl, numpy as np\nsp = odl.rn(%d)\nps = %s\ndata = np.arange(%d, dtype=float).reshape(%r)\nx = ps.element(data)\nidx = %r\n"
+                           "try:\n    sub = np.asarray(x[idx]); observed = sub.shape; expected = data[idx].shape\n    ok = np.array_equal(sub, data[idx]) and sub.shape == data[idx].shape\n"
+                           "except Exception as e:\n    observed = repr(e); ok = False\n"
+                           % (base_n, 'odl.ProductSpace(sp, %d)' % m1 if depth == 1 else 'odl.ProductSpace(odl.ProductSpace(sp, %d), %d)' % (m1, m2),
+                              int(np.prod(shape)), shape, idx)))
+
+
 def probes(rng, tier):
-    return []
+    import warnings
+    warnings.simplefilter('ignore')
+    out = []
+    probe_laws(rng, tier, out)
+    probe_membership(rng, tier, out)
+    probe_element(rng, tier, out)
+    probe_derived(rng, tier, out)
+    probe_indexing(rng, tier, out)
+    return out
 
 
 LEVEL_TEXT = 'in progress'
